@@ -19,6 +19,7 @@ import (
 	"github.com/ethereum/go-ethereum/event"
 	"github.com/libp2p/go-libp2p-core/peer"
 	"github.com/meshplus/bitxhub-core/order"
+	"github.com/meshplus/bitxhub-kit/crypto"
 	peermgr "github.com/meshplus/bitxhub-core/peer-mgr"
 	"github.com/meshplus/bitxhub-kit/types"
 	"github.com/meshplus/bitxhub-model/pb"
@@ -304,11 +305,7 @@ func newCluster(cfg clConfig) *clCluster {
 	// client transactions: two accounts
 	ka, kb := fix.Key("cl-a"), fix.Key("cl-b")
 	to := fix.Addr(fix.KUser2)
-	c.txs["a0"] = fix.Transfer(ka, 0, to, "1")
-	c.txs["a1"] = fix.Transfer(ka, 1, to, "1")
-	c.txs["a2"] = fix.Transfer(ka, 2, to, "1")
-	c.txs["b0"] = fix.Transfer(kb, 0, to, "1")
-	c.txs["b1"] = fix.Transfer(kb, 1, to, "1")
+	c.txs = clTxs(ka, kb, to)
 	for id := uint64(1); id <= 3; id++ {
 		r := &clReplica{id: id, dir: filepath.Join(root, fmt.Sprintf("node%d", id)), execHeight: 1, executed: map[uint64]clDelivery{}, nonces: map[string]uint64{}, blocks: map[uint64]*pb.Block{}}
 		c.reps = append(c.reps, r)
@@ -842,6 +839,7 @@ var clConfigs = []clConfig{
 	{name: "solo-batch1", solo: true, batchSize: 1, script: []string{"tx:a0", "txs:b0+a1", "tx:b1", "tx:a2"}},
 	{name: "solo-batch2", solo: true, batchSize: 2, script: []string{"tx:a0", "tx:b0", "tx:a1", "timeout", "txs:b1+a2", "timeout"}},
 	{name: "batch2", batchSize: 2, script: []string{"campaign:1", "tx:1:a0", "tx:2:b0", "tx:3:a1", "batchtimeout:1", "campaign:3", "tx:2:b1", "tx:1:a2"}},
+	{name: "batch2-unordered", batchSize: 2, script: []string{"campaign:1", "txs:1:a1+a0+a2", "batchtimeout:1", "txs:2:b1+b0", "batchtimeout:1"}},
 }
 
 // clFirstLevel lists the executions with exactly one deviation at point i, as shard cases.
@@ -995,4 +993,27 @@ func init() {
 			}
 		}
 	}
+}
+
+// clTxs: the client transactions. Their timestamps are not in nonce order (a1 was signed
+// before a0): the pool's priority index is ordered by timestamp, so a1 is met first and
+// re-included after a0 by the pool's skip logic.
+func clTxs(ka, kb crypto.PrivateKey, to *types.Address) map[string]pb.Transaction {
+	m := map[string]pb.Transaction{}
+	mk := func(name string, k crypto.PrivateKey, nonce uint64, ts int64) {
+		tx := fix.Transfer(k, nonce, to, "1")
+		tx.Timestamp = ts
+		tx.TransactionHash = nil
+		if err := tx.Sign(k); err != nil {
+			panic(err)
+		}
+		tx.TransactionHash = tx.Hash()
+		m[name] = tx
+	}
+	mk("a0", ka, 0, 200)
+	mk("a1", ka, 1, 100)
+	mk("a2", ka, 2, 300)
+	mk("b0", kb, 0, 150)
+	mk("b1", kb, 1, 250)
+	return m
 }
